@@ -35,6 +35,16 @@ T = TypeVar("T")
 ValidatorResult = Generator[Error, None, T]
 
 
+def _child_sort_key(key: Any) -> Tuple[int, int, str]:
+    # int before str; keys of invalid (non JSON-like) data can be of any class
+    if isinstance(key, int):
+        return 0, key, ""
+    elif isinstance(key, str):
+        return 1, 0, key
+    else:
+        return 2, 0, str(key)
+
+
 class LocalizedError(TypedDict):
     loc: Sequence[ErrorKey]
     err: ErrorMsg
@@ -69,7 +79,7 @@ class ValidationError(Exception):
     def _errors(self) -> Iterator[Tuple[List[ErrorKey], ErrorMsg]]:
         for msg in self.messages:
             yield [], msg
-        for child_key in sorted(self.children):
+        for child_key in sorted(self.children, key=_child_sort_key):
             for path, error in self.children[child_key]._errors():
                 yield [child_key, *path], error
 
